@@ -17,6 +17,13 @@ SQL text and the current input data (`data` is a version number of everything th
 * `dropTable`    — `drop_table_from_database_and_remove_from_cache`
 * `invalidate`   — `invalidate_cache` (drop every table Splink created, empty dict; the hash uid does not change)
 * `deleteCreated`— `delete_tables_created_by_splink_from_db`
+* `resalt`       — `database_api.py:_forget_results_computed_from`, last line: `self._cache_uid = ascii_uid(8)`
+                   (the salt of the hashed physical names is re-drawn; modelled as `uid + 1`: a fresh value)
+* `reregister`   — `register_multiple_tables(..., overwrite=True)` replacing an existing table (behind
+                   `register_table`, `register_table_predict`, `register_labels_table`, a `Linker`'s input
+                   registration): the data change THROUGH Splink, `_forget_results_computed_from` deletes the
+                   stale entries stored under a templated name and re-draws the salt; no table is dropped and
+                   the entries stored under a physical name stay
 -/
 namespace SplinkVerif.Cache
 
@@ -117,6 +124,28 @@ def invalidate (s : State) : State := { deleteCreated s with cache := [] }
 /-- the input data changed and `invalidate_cache()` was called -/
 def mutateInvalidate (s : State) : State := invalidate { s with data := s.data + 1 }
 
+/-- `_forget_results_computed_from`, last line (`self._cache_uid = ascii_uid(8)`): the salt that enters the
+physical-name hash is re-drawn.  A fresh value is modelled as the successor: it differs from every salt
+used before.  Nothing else changes: no table is dropped, no dict entry is removed (the deletions of stale
+entries stored under a templated name are separate `forgetNamed` events). -/
+def resalt (s : State) : State := { s with uid := s.uid + 1 }
+
+/-- forget every entry stored under a templated name (dict only; the tables stay in the catalog) -/
+def forgetAllNamed (s : State) : State :=
+  { s with cache := s.cache.filter fun q => match q.1 with | .named _ => false | .phys _ => true }
+
+/-- A table was replaced under its name THROUGH Splink (`register_multiple_tables(..., overwrite=True)` on an
+existing name): the data change (`data + 1`), the results computed from the replaced table that are stored
+under a templated name are forgotten, and the salt is re-drawn (`_forget_results_computed_from`).  The tables
+and the entries stored under their own physical name are left alone (the caller may still hold them, and
+`delete_tables_created_by_splink_from_db` must still find them); they can no longer be hit, because every
+later request hashes its SQL with the new salt.
+Abstraction: this model has ONE `data` counter standing for all inputs, so after the change every named entry
+is stale and `reregister` forgets them all; the real code forgets exactly the named entries whose
+`sql_used_to_create` mentions (transitively) the replaced table — in a replayed trace those deletions are the
+observed `forgetNamed` events followed by `resalt`. -/
+def reregister (s : State) : State := resalt (forgetAllNamed { s with data := s.data + 1 })
+
 inductive Op
   | req (r : Req)
   /-- `compute_df_concat_with_tf` & co: compute through the cache, then also store under the templated name -/
@@ -125,10 +154,15 @@ inductive Op
   | forgetNamed (templ : Nat)
   | invalidate
   | mutateInvalidate
-  /-- the input data change but `invalidate_cache()` is NOT called (e.g. a second linker re-registers
-  `__splink__input_table_0` on a shared DatabaseAPI) -/
+  /-- the input data change BEHIND Splink's back and `invalidate_cache()` is NOT called (e.g. an `INSERT` into an
+  input table, a registered view whose source changed).  A change THROUGH Splink — a second linker re-registering
+  `__splink__input_table_0` on a shared DatabaseAPI, `register_table(..., overwrite=True)` — is `reregister`. -/
   | mutate
   | deleteCreated
+  /-- the salt of the hashed names is re-drawn (`_forget_results_computed_from`) -/
+  | resalt
+  /-- the input data change THROUGH Splink: a table is replaced under its name with `overwrite=True` -/
+  | reregister
   deriving Repr
 
 section
@@ -144,6 +178,8 @@ def applyOp (s : State) : Op → State
   | .invalidate => invalidate s
   | .mutateInvalidate => mutateInvalidate s
   | .deleteCreated => deleteCreated s
+  | .resalt => resalt s
+  | .reregister => reregister s
 
 def run (s : State) (ops : List Op) : State := ops.foldl (applyOp hash eval) s
 end
